@@ -4,6 +4,7 @@ import (
 	"bytes"
 	"fmt"
 	"os"
+	"sort"
 	"time"
 
 	"github.com/KevoDB/kevo/pkg/common/iterator"
@@ -38,9 +39,19 @@ func (e *DefaultCompactionExecutor) CompactFiles(task *CompactionTask) ([]string
 	// Create a merged iterator over all input files
 	var iterators []iterator.Iterator
 
-	// Add iterators from both levels
+	// Add iterators from both levels. The merged iterator lets the earlier
+	// source win when a key occurs in several of them, so sources must be added
+	// from newest to oldest: lower levels first and, within a level (level-0
+	// files overlap), the most recently created file first
 	for level := 0; level <= task.TargetLevel; level++ {
-		for _, file := range task.InputFiles[level] {
+		files := append([]*SSTableInfo(nil), task.InputFiles[level]...)
+		sort.SliceStable(files, func(i, j int) bool {
+			if files[i].Timestamp != files[j].Timestamp {
+				return files[i].Timestamp > files[j].Timestamp
+			}
+			return files[i].Sequence > files[j].Sequence
+		})
+		for _, file := range files {
 			// We need an iterator that preserves delete markers
 			if file.Reader != nil {
 				iterators = append(iterators, file.Reader.NewIterator())
